@@ -111,6 +111,7 @@ func runC08(r *core.Run) {
 	alignHistories(r, []string{"sym:1:-1:-1:0", "sym:3:-3:-1:-2", "sym:2:-3:0:-1", "asym:0:-1"}, judgeC08)
 	matrixMutationHistories(r, false, judgeC08)
 	matrixMutationHistories2(r)
+	alignWideAlphabets(r, judgeC08)
 	alignAllLengthPairs(r, "sym:2:-1:-1:0", judgeC08)
 	alignBufferReuse(r, []string{"sym:1:-1:-1:0", "sym:3:-3:-1:-2"})
 	alignAllBytes(r, true, []string{"2:-1:-1:0", "1:-2:-1:-1"}, judgeC08)
